@@ -37,6 +37,23 @@ var allowedEmissionGuards = []struct{ prefix, reason string }{
 	{"WarnLevel", "diagnostic after a failed Write is not issued for a warning (judged under C13)"},
 }
 
+// allowedEscape: edges on which an admitted record is legitimately not emitted by this function.
+func allowedEscape(desc string) (string, bool) {
+	for _, e := range []struct{ d, why string }{
+		{"T:Entry.handlerOpt != nil", "a logger constructed with a log/slog handler option hands the record to it"},
+		{"F:Entry.handlerOpt == nil", "a logger constructed with a log/slog handler option hands the record to it"},
+		{"F:call Entry.findWriter != nil", "no destination (cannot happen: findWriter falls back to the package default)"},
+		{"T:call Entry.findWriter == nil", "no destination (cannot happen: findWriter falls back to the package default)"},
+		{"F:typeassert-ok global defaultLog.(*Entry)", "the default logger was replaced by a foreign Logger implementation (outside the decided domain)"},
+		{"F:typeassert-ok handlerWriter.l.(LogLoggerAware)", "bridge on a logger that does not accept raw bytes"},
+	} {
+		if desc == e.d {
+			return e.why, true
+		}
+	}
+	return "", false
+}
+
 func allowedGuard(desc string) (string, bool) {
 	for _, a := range allowedEmissionGuards {
 		if strings.HasPrefix(desc, a.prefix) || strings.Contains(desc[2:], a.prefix) && !strings.HasPrefix(a.prefix, "T:") && !strings.HasPrefix(a.prefix, "F:") {
@@ -211,50 +228,81 @@ func c01Gates(c *Ctx, p *Prog, m *Model, tags string) {
 		}
 	}
 
-	// R01.2: emission calls depend only on the gate and allow-listed conditions
+	// R01.2: once admitted, every path emits: from the admitting edge of the gate (or from the entry of an ungated
+	// spine function) no path reaches a return without passing an emission call, except through an allow-listed
+	// configuration escape.
 	var spine []*ssa.Function
 	for fn := range m.Spine {
 		spine = append(spine, fn)
 	}
 	sort.Slice(spine, func(i, j int) bool { return shortName(spine[i]) < shortName(spine[j]) })
 	for _, fn := range spine {
-		sites := m.Sites[fn]
-		for _, sc := range m.SinkCall[fn] {
-			sites = append(sites, sc)
+		if len(fn.Blocks) == 0 {
+			continue
 		}
-		for i, s := range sites {
-			calName := "Write"
-			if cal := calleeOf(s); cal != nil {
-				calName = shortName(cal)
+		H := map[*ssa.BasicBlock]bool{}
+		var starts []*ssa.BasicBlock
+		gated := false
+		for _, s := range m.Sites[fn] {
+			if m.SinkFns[fn] {
+				continue // the diagnostic re-entry of the sink is not "the" emission
 			}
-			key := fmt.Sprintf("emit:%s->%s", shortName(fn), calName)
-			_ = i
-			var extra []string
-			for _, g := range guardsOf(s.Block()) {
-				d := m.guardDesc(g)
-				if d == "T:GATE" {
-					continue
-				}
-				if d == "F:GATE" {
-					extra = append(extra, "on the rejecting edge of an admission test")
-					continue
-				}
-				if _, ok := allowedGuard(d); ok {
-					continue
-				}
-				extra = append(extra, d+" ("+p.Pos(instrPos(g.If))+")")
+			H[s.Block()] = true
+			if g, _ := m.localGate(s); g != nil {
+				gated = true
+				starts = append(starts, g.Guard.Blk.Succs[g.Guard.Succ])
 			}
 			if _, isDefer := s.(*ssa.Defer); isDefer {
-				extra = append(extra, "emission deferred")
+				delete(H, s.Block())
 			}
-			if inLoop(s.Block()) {
-				extra = append(extra, "emission call inside a loop")
+		}
+		for _, sc := range m.SinkCall[fn] {
+			H[sc.Block()] = true
+		}
+		if len(H) == 0 {
+			continue
+		}
+		if !gated {
+			starts = []*ssa.BasicBlock{fn.Blocks[0]}
+		}
+		// escape blocks: entered by an allow-listed edge
+		escape := map[*ssa.BasicBlock]string{}
+		for _, b := range fn.Blocks {
+			iff := ifOf(b)
+			if iff == nil {
+				continue
 			}
-			if len(extra) > 0 {
-				r.Bad("R01.2", key, p.Pos(instrPos(s)), "an admitted record is emitted only if additionally: %s", strings.Join(extra, "; "))
-			} else {
-				r.Ok("R01.2", key, p.Pos(instrPos(s)), "reaching this emission call depends only on the admission test and allow-listed configuration conditions")
+			for k := 0; k < 2; k++ {
+				d := m.guardDesc(guard{iff, b, k})
+				if why, ok := allowedEscape(d); ok {
+					escape[b.Succs[k]] = why
+				}
 			}
+		}
+		rets, _ := exitBlocks(fn)
+		key := "emits:" + shortName(fn)
+		bad := ""
+		for _, st := range starts {
+			if H[st] {
+				continue
+			}
+			for _, rb := range rets {
+				if H[rb] || escape[rb] != "" {
+					continue
+				}
+				avoid := func(x *ssa.BasicBlock) bool { return H[x] || escape[x] != "" }
+				if st == rb || reachAvoiding(st, rb, avoid) {
+					if escape[st] != "" {
+						continue
+					}
+					bad = fmt.Sprintf("a path from %s to the return at %s passes no emission call: an admitted record can be dropped", map[bool]string{true: "the admitting edge of the gate", false: "the function entry"}[gated], p.Pos(instrPos(rb.Instrs[len(rb.Instrs)-1])))
+				}
+			}
+		}
+		if bad != "" {
+			r.Bad("R01.2", key, p.FuncPos(fn), "%s", bad)
+		} else {
+			r.Ok("R01.2", key, p.FuncPos(fn), "every path from %s passes an emission call or an allow-listed configuration escape (%d emission block(s))", map[bool]string{true: "the admitting edge", false: "the entry"}[gated], len(H))
 		}
 	}
 
